@@ -10,11 +10,23 @@
 (* Deviations (HDev): "readerCaches" - included files are cached by path for the life of the process; "writerAppends" - the      *)
 (* output is appended to an existing file instead of replacing it; "readerReusesBlock" - from_itp does not parse the file when    *)
 (* the force field already has a block of that name.  Read(file) depends on the file, not on what the force field held before.    *)
+(*   plog     the MESSAGE state of the process: how many info / warning / error messages the process has logged so far.  A block  *)
+(*            or a link of a force field may carry an [ info ] / [ warning ] / [ error ] message section; when such a block or     *)
+(*            link is applied the message belongs to the built molecule and gen_params logs it.  The logging system (polyply's     *)
+(*            counting handler) lives as long as the process: the counts are never reset between two calls of gen_params.          *)
+(* A run that passes mapping and link application writes its file, and the file reads back to the molecule built, whatever the     *)
+(* applied blocks and links said and whatever the process has logged in earlier calls (OutputIgnoresLog, GenWritesWhateverLogged). *)
+(* Deviation "errGate": the output is put in place only "if no error came up", decided by the process-wide error count - the run   *)
+(* that logs an [ error ] message and EVERY later run of the process leave their path as it was (no file / the stale one).         *)
 EXTENDS ItpRoundTripExport
 CONSTANTS Paths, MaxOps, HDev,
-          WithFF      \* TRUE: histories also read through from_itp into one long-lived force field (ReadFF)
-VARIABLES fs, at, cache, obs, nops, hist, ffb
-hvars == <<fs, at, cache, obs, nops, hist, ffb>>
+          WithFF,     \* TRUE: histories also read through from_itp into one long-lived force field (ReadFF)
+          MolIdx,     \* the molecules (indices into HistMols) the instance generates
+          MsgKinds,   \* the message sections the generating force field may carry: records [lv, on], lv = level ("none": no message
+                      \* section), on = what carries it ("block": the residue blocks, "link": a link that is applied)
+          MaxMsgs     \* bound of the instance: at most so many runs of a history use a force field with a message section
+VARIABLES fs, at, cache, obs, nops, hist, ffb, plog
+hvars == <<fs, at, cache, obs, nops, hist, ffb, plog>>
 
 L1 == <<(<<1>>), (<<"A">>)>>
 L2 == <<(<<1, 2>>), (<<"A", "A">>)>>
@@ -35,27 +47,42 @@ LibBlock == [has |-> TRUE, res |-> [Finalize(R0) EXCEPT !.name = "A", !.nrexcl =
 NoObs == [valid |-> FALSE, path |-> "", res |-> Finalize(R0)]
 Frozen == /\ mol = 0 /\ pc = "hist" /\ out = <<>> /\ secs = {} /\ cur = "" /\ groups = <<>> /\ pend = <<>> /\ gopen = NoGuard
           /\ late = FALSE /\ rd = R0 /\ ri = 1
+NoMsg == [lv |-> "none", on |-> ""]
+Levels == {"info", "warning", "error"}
+AllMsgKinds == {NoMsg} \cup {[lv |-> v, on |-> c] : v \in Levels, c \in {"block", "link"}}
+NoLog == [v \in Levels |-> 0]
+Bump(lg, lv) == IF lv \in Levels THEN [lg EXCEPT ![lv] = @ + 1] ELSE lg
 HInit == /\ Frozen /\ fs = [p \in Paths |-> <<>>] /\ at = [p \in Paths |-> 0] /\ cache = [p \in Paths |-> <<>>] /\ obs = NoObs
          /\ ffb \in (IF WithFF THEN {NoBlock, LibBlock} ELSE {NoBlock})
-         /\ nops = 0 /\ hist = <<[op |-> "init", path |-> IF ffb.has THEN "lib" ELSE "fresh", m |-> 0]>>
-Gen(p, i) == /\ nops < MaxOps
-             /\ fs' = [fs EXCEPT ![p] = IF HDev = "writerAppends" THEN @ \o Write(HistMols[i]) ELSE Write(HistMols[i])]
-             /\ at' = [at EXCEPT ![p] = i] /\ obs' = NoObs /\ UNCHANGED <<cache, ffb>>
-             /\ nops' = nops + 1 /\ hist' = Append(hist, [op |-> "gen", path |-> p, m |-> i])
+         /\ plog = NoLog
+         /\ nops = 0 /\ hist = <<[op |-> "init", path |-> IF ffb.has THEN "lib" ELSE "fresh", m |-> 0, lv |-> "none", on |-> ""]>>
+\* one call of gen_params in the process: force field whose applied blocks / links carry the message k, molecule i, output path p.
+\* The run passes mapping and link application (every molecule of the instance does): the messages are logged - the process state
+\* plog grows - and the file is written.  Nothing in the intended design reads plog.
+Gen(p, i, k) ==
+    LET logged == Bump(plog, k.lv)                             \* after the messages of this call have been printed
+        held == HDev = "errGate" /\ logged["error"] > 0         \* "the force field reported errors": output withheld
+    IN /\ nops < MaxOps
+       /\ k = NoMsg \/ Cardinality({j \in DOMAIN hist : hist[j].op = "gen" /\ hist[j].lv # "none"}) < MaxMsgs
+       /\ fs' = IF held THEN fs
+                ELSE [fs EXCEPT ![p] = IF HDev = "writerAppends" THEN @ \o Write(HistMols[i]) ELSE Write(HistMols[i])]
+       /\ plog' = IF held THEN Bump(logged, "error") ELSE logged   \* the complaint about the withheld file is an error message too
+       /\ at' = [at EXCEPT ![p] = i] /\ obs' = NoObs /\ UNCHANGED <<cache, ffb>>
+       /\ nops' = nops + 1 /\ hist' = Append(hist, [op |-> "gen", path |-> p, m |-> i, lv |-> k.lv, on |-> k.on])
 ReadTop(p) == /\ nops < MaxOps /\ at[p] # 0
               /\ LET content == IF HDev = "readerCaches" /\ cache[p] # <<>> THEN cache[p] ELSE fs[p] IN
                    /\ obs' = [valid |-> TRUE, path |-> p, res |-> Read(content)]
                    /\ cache' = [cache EXCEPT ![p] = content]
-              /\ UNCHANGED <<fs, at, ffb>>
-              /\ nops' = nops + 1 /\ hist' = Append(hist, [op |-> "read", path |-> p, m |-> at[p]])
+              /\ UNCHANGED <<fs, at, ffb, plog>>
+              /\ nops' = nops + 1 /\ hist' = Append(hist, [op |-> "read", path |-> p, m |-> at[p], lv |-> "none", on |-> ""])
 \* MetaMolecule.from_itp(force_field, file of p, name) with the one force field of the process: the block of that name is replaced
 ReadFF(p) == /\ WithFF /\ nops < MaxOps /\ at[p] # 0
              /\ LET res == IF HDev = "readerReusesBlock" /\ ffb.has THEN ffb.res ELSE Read(fs[p]) IN
                   /\ obs' = [valid |-> TRUE, path |-> p, res |-> res]
                   /\ ffb' = [has |-> TRUE, res |-> res]
-             /\ UNCHANGED <<fs, at, cache>>
-             /\ nops' = nops + 1 /\ hist' = Append(hist, [op |-> "readff", path |-> p, m |-> at[p]])
-HNext == /\ (\E p \in Paths : (\E i \in 1..NMols : Gen(p, i)) \/ ReadTop(p) \/ ReadFF(p))
+             /\ UNCHANGED <<fs, at, cache, plog>>
+             /\ nops' = nops + 1 /\ hist' = Append(hist, [op |-> "readff", path |-> p, m |-> at[p], lv |-> "none", on |-> ""])
+HNext == /\ (\E p \in Paths : (\E i \in MolIdx, k \in MsgKinds : Gen(p, i, k)) \/ ReadTop(p) \/ ReadFF(p))
          /\ UNCHANGED vars
 \* every read returns the molecule the path holds now, and nothing but the current content decides it
 ReadIsCurrent == obs.valid => /\ obs.res.ok /\ Same(obs.res, Project(HistMols[at[obs.path]]))
@@ -63,9 +90,29 @@ ReadIsCurrent == obs.valid => /\ obs.res.ok /\ Same(obs.res, Project(HistMols[at
 \* a path holds exactly what was last written to it; other paths are untouched
 FsHoldsWrite == \A p \in Paths : IF at[p] = 0 THEN fs[p] = <<>> ELSE fs[p] = Write(HistMols[at[p]])
 OnlyWritesChangeFiles == [][\A p \in Paths : fs'[p] # fs[p] => (hist'[Len(hist')].op = "gen" /\ hist'[Len(hist')].path = p)]_hvars
+\* ---- messages.  The operations of the process with their messages erased decide what every path holds: the content of p is what the
+\* LAST run with output path p wrote - irrespective of the message sections of that run's force field and of any earlier run's
+GensTo(p) == {j \in DOMAIN hist : hist[j].op = "gen" /\ hist[j].path = p}
+LastGenTo(p) == CHOOSE j \in GensTo(p) : \A j2 \in GensTo(p) : j2 <= j
+OutputIgnoresLog == \A p \in Paths : fs[p] = (IF GensTo(p) = {} THEN <<>> ELSE Write(HistMols[hist[LastGenTo(p)].m]))
+\* every run (it passed mapping and link application) writes its file, and the file reads back to the molecule the run built - in
+\* every process state plog, whatever plog' is
+GenWritesWhateverLogged ==
+    [][LET e == hist'[Len(hist')] IN
+         e.op = "gen" => /\ fs'[e.path] = Write(HistMols[e.m])
+                         /\ LET r == Read(fs'[e.path]) IN r.ok /\ Same(r, Project(HistMols[e.m]))]_hvars
+\* the message state is state of the PROCESS: the counts are those of all runs so far (nothing resets them between two calls) ...
+CountOf(lv) == Cardinality({j \in DOMAIN hist : hist[j].op = "gen" /\ hist[j].lv = lv})
+LogSurvivesCalls == \A lv \in Levels : plog[lv] = CountOf(lv)
+\* ... and only runs feed it
+OnlyRunsLog == [][plog' # plog => hist'[Len(hist')].op = "gen"]_hvars
 \* export: the molecules once, every behaviour of MaxOps operations that ends with a read
 ASSUME PrintT(<<"HMOLS", ToJson([i \in 1..NMols |-> CaseOf(HistMols[i])])>>)
 HistExport == (nops = MaxOps /\ hist[Len(hist)].op \in {"read", "readff"}) => PrintT(<<"HIST", ToJson(hist)>>)
 MCPaths == {"X", "Y"}
+MCMolAll == 1..NMols
+MCMolTwo == {2, 3}
+MCMsgNone == {NoMsg}
+MCMsgAll == AllMsgKinds
 MCInit == HInit
 =============================================================================
